@@ -1,0 +1,30 @@
+//go:build verif
+
+// Contracts for package io/prompt (comment-only; read by /verif/govc).
+
+package prompt
+
+// ---- the interactive prompt (C17) ---------------------------------------------------------------
+// An input selects an answer only by being exactly its long or its short form;
+// the first such answer in registration order is the one returned.
+//@ define selects(in, a) == (in == a.Long || in == a.Short)
+//@ func (*Prompt).answer
+//@   assigns nothing
+//@   loop 1 invariant [no-match-so-far] -1 <= rangeindex && rangeindex < len(p.answers) && forall(i, 0, rangeindex + 1, !selects(answerStr, p.answers[i]))
+//@   ensures [exact-match-only] result1 == exists(i, 0, len(p.answers), selects(answerStr, p.answers[i]))
+//@   ensures [first-match] implies(result1, result0 != nil && exists(i, 0, len(p.answers), selects(answerStr, p.answers[i]) && result0.Long == p.answers[i].Long && result0.Short == p.answers[i].Short && result0.AskAgain == p.answers[i].AskAgain && result0.Callback == p.answers[i].Callback && result0.EndCallback == p.answers[i].EndCallback && forall(j, 0, i, !selects(answerStr, p.answers[j]))))
+//@   ensures [no-match-no-answer] implies(!result1, result0 == nil)
+
+//@ func (*Prompt).Add
+//@   assigns p.answers
+//@   ensures [appended] len(p.answers) == old(len(p.answers)) + 1 && p.answers[len(p.answers) - 1].Long == answer.Long && p.answers[len(p.answers) - 1].Short == answer.Short && forall(i, 0, old(len(p.answers)), p.answers[i] == old(p.answers)[i])
+//@ func New
+//@   assigns nothing
+//@   ensures [empty] result != nil && len(result.answers) == 0
+
+// Ask runs no callback but those of the first answer the (trimmed) input line
+// selects; any other input, the empty line included, asks again.
+//@ func (*Prompt).Ask
+//@   at-call dynamic:func() [selected-answers-callback-only] exists(i, 0, len(p.answers), selects(ufs_trimspace(answerStr), p.answers[i]) && forall(j, 0, i, !selects(ufs_trimspace(answerStr), p.answers[j])) && (callee == p.answers[i].Callback || callee == p.answers[i].EndCallback))
+//@ func (*Prompt).askString
+//@   assigns nothing
